@@ -205,6 +205,17 @@ fn mutate(p: &mut Party, foreign_dids: &[String], round: usize) {
             .metadata
             .properties_mut()
             .insert(format!("meta{i}"), Value::from(ctx::choose(1000) as u64));
+          // the remaining metadata fields must survive packing as well
+          match ctx::choose(4) {
+            0 => doc.metadata.deactivated = Some(ctx::choose(2) == 0),
+            1 => doc.metadata.updated = identity_core::common::Timestamp::from_unix(ctx::clock() + ctx::choose(1000) as i64).ok(),
+            2 => doc.metadata.created = identity_core::common::Timestamp::from_unix(ctx::clock() - ctx::choose(100_000) as i64).ok(),
+            _ => {
+              // ledger address fields are dropped by packing (the one documented exception)
+              doc.metadata.governor_address = Some("rms1governor".to_owned());
+              doc.metadata.state_controller_address = Some("rms1controller".to_owned());
+            }
+          }
         }
       }
       _ => {
@@ -458,10 +469,16 @@ pub fn run(_params: &Params) {
   if ctx::choose(24) == 0 {
     if let AnyDoc::Iota(doc) = &p.doc {
       let mut big = doc.clone();
-      let base = serde_json::to_vec(&StateMetadataDocument::from(big.clone())).map(|v| v.len()).unwrap_or(0);
+      let base = 0usize;
       let over = ctx::choose(2) == 0;
       let mut i = 0;
-      let size_of = |d: &IotaDocument| serde_json::to_vec(&StateMetadataDocument::from(d.clone())).map(|v| v.len()).unwrap_or(0);
+      // size of what pack serialises: the ledger address fields are dropped before encoding
+      let size_of = |d: &IotaDocument| {
+        let mut d = d.clone();
+        d.metadata.governor_address = None;
+        d.metadata.state_controller_address = None;
+        serde_json::to_vec(&StateMetadataDocument::from(d)).map(|v| v.len()).unwrap_or(0)
+      };
       let mk = |i: usize, pad: usize, did: &str| {
         Service::from_json_value(serde_json::json!({"id": format!("{did}#big{i}"), "type":"Pad",
           "serviceEndpoint": format!("https://pad.example/{}", "x".repeat(pad))}))
@@ -494,7 +511,7 @@ pub fn run(_params: &Params) {
         }
         i += 1;
       }
-      let size = serde_json::to_vec(&StateMetadataDocument::from(big.clone())).map(|v| v.len()).unwrap_or(0);
+      let size = size_of(&big);
       let r = ctx::catch(|| big.clone().pack());
       ctx::trace(format!("oversize probe: base {base} grown to {size} bytes, over={over}"));
       match r {
